@@ -373,6 +373,33 @@ def transplant(base, annotated, cur, where, mode=None):
 
 # ------------------------------------------------------------------ assembling a unit
 
+def std_imports(text):
+    """{name: full path} for the top-level `use std::/core::/alloc::` lines of a source text (one level of braces, no globs, no renames)"""
+    out = {}
+    for m in re.finditer(r'^use\s+((?:std|core|alloc)(?:::\w+)*)::(\{[^}]*\}|\w+)\s*;', text, re.M):
+        prefix, tail = m.group(1), m.group(2)
+        names = [x.strip() for x in tail[1:-1].split(',')] if tail.startswith('{') else [tail]
+        for n in names:
+            if re.fullmatch(r'\w+', n) and n != 'self':
+                out[n] = '%s::%s' % (prefix, n)
+    return out
+
+
+def carry_imports(repo, regions, new_words, assembled):
+    out = []
+    have = std_imports(assembled)
+    for relfile, words in new_words.items():
+        try:
+            imp = std_imports(open(os.path.join(repo, relfile)).read())
+        except OSError:
+            continue
+        for w in sorted(words):
+            if w in imp and w not in have and not re.search(r'\b(?:struct|trait|enum|type|fn|mod)\s+%s\b' % w, assembled) \
+                    and not re.search(r'^use\s[^;]*\b%s\b' % w, assembled, re.M):
+                out.append((imp[w], w)); have[w] = imp[w]
+    return out
+
+
 def sha(s):
     return hashlib.sha256(s.encode()).hexdigest()
 
@@ -394,6 +421,7 @@ def assemble(template_path, repo=None, learn=False, modes=None):
     base = load_base(unit)
     new_base = {}
     out_lines, linemap, regions, notes = [], [], [], []
+    new_words = {}
     prev_tail = ''
     for kind, c in chunks:
         if kind == 'text':
@@ -439,6 +467,8 @@ def assemble(template_path, repo=None, learn=False, modes=None):
                     out_lines.append(line); linemap.append((r.label, False, None))
         else:
             rec['changed_since_baseline'] = raw != b_raw
+            if raw != b_raw:
+                new_words.setdefault(r.file, set()).update(set(re.findall(r'\b[A-Z]\w*\b', raw)) - set(re.findall(r'\b[A-Z]\w*\b', b_raw)))
             c_lines, applied = prepare(raw, r, rnotes, strict=False)
             # size of the change: baseline lines with no exact counterpart + current lines with no exact counterpart
             mm = align(b_lines, c_lines)
@@ -458,6 +488,20 @@ def assemble(template_path, repo=None, learn=False, modes=None):
         rec['notes'] = rnotes
         notes += ['%s: %s' % (r.label, x) for x in rnotes]
         regions.append(rec)
+    # R18: std imports.  Only items are extracted, not the `use` lines of their file.  When a CHANGED region mentions a name that its
+    # baseline text did not, and the region's source file imports that name from std / core / alloc, the import is carried over
+    # (unless the template already imports or defines the name).  Nothing is added on the unchanged tree.
+    try:
+        carried = carry_imports(repo, regions, new_words, '\n'.join(out_lines))
+    except Exception:
+        carried = []
+    if carried:
+        k = next((i for i, l in enumerate(out_lines) if l.startswith('use vstd::prelude')), None)
+        if k is not None:
+            for path, name in carried:
+                out_lines.insert(k + 1, '#[allow(unused_imports)] use %s;' % path)
+                linemap.insert(k + 1, (None, False, None))
+            notes.append('R18: std imports carried over from the source files for changed regions: %s' % ', '.join(p for p, _ in carried))
     if learn:
         os.makedirs(os.path.join(VERIF, 'contracts', 'base'), exist_ok=True)
         with open(os.path.join(VERIF, 'contracts', 'base', unit + '.json'), 'w') as f:
